@@ -9,7 +9,7 @@ from .. import model as M
 ID = "C04"
 RULE = ("id family in {sequential ints, zero-padded numbers, UUID-like (scattered and sequential), e-mail-like, two-field keys "
         "with a fixed-width first field} x population offset x salt (absent, empty, short, long, non-ASCII) x weight vector "
-        "(2-8 groups, ints/decimals, optional zero-weight group, every expected count >= 50), N distinct units (2e4 quick, 1e5 "
+        "(2-8 groups, ints/decimals, optional zero-weight group, optionally one label repeated on several slices, every expected count >= 50), offsets up to 2^63 and 10^24, N distinct units (2e4 quick, 1e5 "
         "thorough) evaluated through ExperimentEvaluator built from DSL text. Oracles: chi-square goodness-of-fit against the "
         "declared weights (zero-weight groups must stay empty) and chi-square contingency between the assignments of the same "
         "population under two different salts; reject below p = 1e-9. Non-trivial = every combination whose expected counts are "
@@ -66,24 +66,42 @@ def cases(draw, n):
     s1, s2 = draw(st.lists(st.sampled_from(SALTS), min_size=2, max_size=2, unique=True))
     if {s1, s2} == {None, ""}:
         s2 = "other"
-    return {"family": fam, "offset": draw(st.sampled_from([0, 1, 1000, 10 ** 6, 10 ** 9, 123456789, 2 ** 31, 10 ** 12])), "weights": ws,
+    case = {"family": fam, "offset": draw(st.sampled_from([0, 1, 1000, 10 ** 6, 10 ** 9, 123456789, 2 ** 31, 10 ** 12, 2 ** 53 - 7, 2 ** 60,
+                                                           2 ** 63 - 200000, 1541815603606036480, 10 ** 24])), "weights": ws,
             "salts": [s1, s2], "n": n}
+    if len(ws) >= 3 and draw(st.integers(0, 3)) == 0:
+        # a label declared on several slices owns the sum of its slices (also 1 vs 1.0, which compare equal)
+        pool = draw(st.sampled_from([["control", "treatment"], ["A", "B", "C"], [1, 1.0, "x"]]))
+        case["labels"] = [M.enc(draw(st.sampled_from(pool))) for _ in ws]
+    return case
 
 
 def _assign(case, salt):
     fam = case["family"]
     ws = case["weights"]
-    body = M.ret([(M.lit_str("g%d" % j), w) for j, w in enumerate(ws)])
+    labels = [M.dec(x) for x in case["labels"]] if case.get("labels") else ["g%d" % j for j in range(len(ws))]
+    body = M.ret([(M.lit_of(l), w) for l, w in zip(labels, ws)])
     sp = ["region", "uid"] if fam == "two-field" else ["uid"]
     res = sut.compile_text(M.render(M.program("pop", body, salt=salt, splitters=sp)))
     if res[0] != "ok":
         return None, "does not compile: %r" % (res[1:],)
     ev = res[1]
-    idx = {"g%d" % j: j for j in range(len(ws))}
+    # observed class of a result = first slice carrying the same label (value and type)
+    def cls(v):
+        for j, l in enumerate(labels):
+            if sut.same_value(v, l):
+                return j
+        raise KeyError(v)
+
+    cache = {}
     out = []
     for u in _units(fam, case["offset"], case["n"]):
         try:
-            out.append(idx[ev(**u)])
+            v = ev(**u)
+            k = (type(v), v)
+            if k not in cache:
+                cache[k] = cls(v)
+            out.append(cache[k])
         except Exception as e:
             return None, "evaluation failed for %r: %s %s" % (u, type(e).__name__, e)
     return out, None
@@ -94,6 +112,14 @@ def judge(case):
     n = case["n"]
     tot = sum(Fraction(w) for w in ws)
     exp = [float(Fraction(w) / tot * n) for w in ws]
+    if case.get("labels"):
+        # fold the expectation of repeated labels onto their first slice
+        labels = [M.dec(x) for x in case["labels"]]
+        folded = [0.0] * len(ws)
+        for j, l in enumerate(labels):
+            first = next(i for i, m in enumerate(labels) if sut.same_value(l, m))
+            folded[first] += exp[j]
+        exp = folded
     viol = []
     vecs = []
     tags = ["family:" + case["family"]]
@@ -107,7 +133,7 @@ def judge(case):
         for i in a:
             obs[i] += 1
         for j, w in enumerate(ws):
-            if float(w) == 0 and obs[j]:
+            if exp[j] == 0 and obs[j]:
                 viol.append("zero-weight group %d received %d units" % (j, obs[j]))
         stat, df, p = stats.chi2_gof(obs, exp)
         if p < 1e-9:
@@ -122,8 +148,12 @@ def judge(case):
         if p < 1e-9:
             viol.append("assignments under salts %r and %r are not independent: chi2=%.1f df=%d p=%.3g | family=%s offset=%d weights=%r N=%d"
                         % (case["salts"][0], case["salts"][1], stat, df, p, case["family"], case["offset"], ws, n))
-    return {"viol": viol, "nontrivial": min(e for e, w in zip(exp, ws) if float(w) > 0) >= 50, "tags": tags,
-            "key": [case["family"], case["offset"], case["salts"], ws], "sample": case}
+    if case.get("labels"):
+        tags.append("repeated-labels")
+    if case["offset"] >= 2 ** 53 - 7:
+        tags.append("ids>=2^53")
+    return {"viol": viol, "nontrivial": min([e for e in exp if e > 0] or [0]) >= 50, "tags": tags,
+            "key": [case["family"], case["offset"], case["salts"], ws, case.get("labels")], "sample": case}
 
 
 def judge_case(record):
